@@ -8,7 +8,7 @@
    the oracle (DESIGN.md 5 C09 and 12). *)
 From RsdnsModel Require Import Base Cursor Names Labels Header Tracker RData Reader.
 From RsdnsModel.Spec Require Import LinearPass.
-From RsdnsModel.Proofs Require Import Latch TrackerRefine.
+From RsdnsModel.Proofs Require Import Latch TrackerRefine SpecExec ParseSpec ReaderRefine.
 Open Scope N_scope.
 
 (* after the first decode error (or exhaustion) the reader stays exhausted: every sequential call
@@ -92,3 +92,64 @@ Example C09_tracker_example :
   exists tr, run_t 1 2 0 1 (fun k => 12 + 20 * k) [TQuestion; TRecord; TRecord; TSeek 0; TRecord; TSeek 1; TRecord]
                    (tr_set tr_default (mkHeader 7 0 1 2 0 1)) 0 0 = Some (tr, 4, 4).
 Proof. vm_compute. split; [reflexivity|]. split; [reflexivity|]. eexists. reflexivity. Qed.
+
+(* ---- the parsers compute the items of the linear pass ----
+   on a cursor over the whole message: the borrowed-question parser and the record-marker parser
+   succeed exactly when the spec's question_at / record_at do, with the same offsets and fields *)
+Theorem C09_question_parse_is_spec : forall msg c, whole msg c ->
+  match question_at msg (pos c) with
+  | Some it => m_question_ref msg c = (c_set_pos c (a_end it), Ok (OQuestionRef c (a_type it) (a_class it))) /\
+               a_start it = pos c
+  | None => exists c' e, m_question_ref msg c = (c', Err e)
+  end.
+Proof. exact question_ref_is_question_at. Qed.
+
+Theorem C09_record_parse_is_spec : forall msg c p s, whole msg c ->
+  match record_at msg (pos c) with
+  | Some it =>
+    (do* _ <- lift_c (skip_name msg); m_raw_marker msg p s) c =
+    (c_set_pos c (a_type_off it + 10), Ok (mkMarker p (a_type_off it) (a_type it) (a_class it) (a_ttl it) (a_rdlen it) s)) /\
+    a_start it = pos c /\ a_end it = a_type_off it + 10 + a_rdlen it /\
+    a_data_ok it = (a_type_off it + 10 + a_rdlen it <=? lenN msg)
+  | None => exists c' e, (do* _ <- lift_c (skip_name msg); m_raw_marker msg p s) c = (c', Err e)
+  end.
+Proof. exact marker_is_record_at. Qed.
+
+(* ---- the reader refines the linear pass (composition) ----
+   For a message that the linear pass parses completely ([chain]: every announced question and
+   record header parses where the previous item ended, every record's data lies inside the message;
+   Theorem C09_linear_pass_gives_chains derives this from linear_of), and EVERY sequence of
+   documented operations allowed by the pass — read a question (borrowed flavour), read a record
+   (record_marker + skip_record_data), seek to a section whose offset is known: every call
+   succeeds, returns exactly the prescribed item ([expected]: the question / record header of the
+   pass at that index, with its offsets, fields and section), and the reader ends in the state
+   the pass prescribes ([RState]: cursor at the offset of item idx', tracker representing
+   (idx', hw')). *)
+Theorem C09_reader_refines : forall msg, lenN msg <= 65535 -> 12 <= lenN msg ->
+  forall nq an ns ar qs rs e1 e2,
+  chain msg question_at (fun _ => True) 12 qs e1 ->
+  chain msg record_at (fun it => a_data_ok it = true) e1 rs e2 ->
+  lenN qs = nq -> lenN rs = an + ns + ar -> nq <= 65535 -> an <= 65535 -> ns <= 65535 -> ar <= 65535 ->
+  forall ops r idx hw idx' hw',
+  RState msg nq an ns ar qs rs e2 r idx hw -> allowed nq an ns ar ops idx hw = Some (idx', hw') ->
+  exists r', RState msg nq an ns ar qs rs e2 r' idx' hw' /\ prescribed msg nq an ns ar qs rs r' ops r idx hw.
+Proof. exact reader_refines. Qed.
+
+(* the state right after header(): a whole-message cursor at offset 12 and the tracker built from
+   the header represent (0, 0) *)
+Theorem C09_reader_start : forall msg, lenN msg <= 65535 -> 12 <= lenN msg ->
+  forall nq an ns ar qs rs e1 e2,
+  chain msg question_at (fun _ => True) 12 qs e1 ->
+  chain msg record_at (fun it => a_data_ok it = true) e1 rs e2 ->
+  lenN qs = nq -> lenN rs = an + ns + ar -> nq <= 65535 -> an <= 65535 -> ns <= 65535 -> ar <= 65535 ->
+  forall h c, h_qd h = nq -> h_an h = an -> h_ns h = ns -> h_ar h = ar -> whole msg c -> pos c = 12 ->
+  RState msg nq an ns ar qs rs e2 (mkReader c (tr_set tr_default h) false) 0 0.
+Proof. exact rstate_start. Qed.
+
+(* a message that the linear pass parses completely gives the chains *)
+Theorem C09_linear_pass_gives_chains : forall msg l, linear_of msg = Some l ->
+  lenN (l_qs l) = l_nq l -> lenN (l_rs l) = nrec l -> Forall (fun it => a_data_ok it = true) (l_rs l) ->
+  lenN msg <= 65535 /\ 12 <= lenN msg /\ l_nq l <= 65535 /\ l_an l <= 65535 /\ l_ns l <= 65535 /\ l_ar l <= 65535 /\
+  exists e1 e2, chain msg question_at (fun _ => True) 12 (l_qs l) e1 /\
+                chain msg record_at (fun it => a_data_ok it = true) e1 (l_rs l) e2.
+Proof. exact linear_chains. Qed.
